@@ -154,6 +154,11 @@ type AVCSPSOpts struct {
 	ID    uint32
 	Light bool // fewer/lighter scaling lists, VUI, poc cycles (slice and conf contexts)
 	Conf  bool // first SPS of a configuration record (known-defect avoidance of the conf checks applies)
+	// Profiles: the profile_idc values to draw from (nil: AVCProfiles, the draw sequence is unchanged).
+	Profiles []uint32
+	// PocCycleAny: num_ref_frames_in_pic_order_cnt_cycle is also drawn from the whole range 0..255 (boundary
+	// heavy) instead of only from the fixed set {0, 1, 2, 3, 7, 255}; false: the draw sequence is unchanged.
+	PocCycleAny bool
 }
 
 func GenAVCScalingList(t *rapid.T, size int, label string) nalgen.ScalingListSyntax {
@@ -351,7 +356,11 @@ func GenAVCSPS(t *rapid.T, o AVCSPSOpts) nalgen.AVCSPSTree {
 	var tr nalgen.AVCSPSTree
 	s := &tr.S
 	tr.NalRefIdc = uint8(rapid.IntRange(1, 3).Draw(t, "sps-nal_ref_idc"))
-	s.Profile = rapid.SampledFrom(AVCProfiles).Draw(t, "profile_idc")
+	profiles := AVCProfiles
+	if o.Profiles != nil {
+		profiles = o.Profiles
+	}
+	s.Profile = rapid.SampledFrom(profiles).Draw(t, "profile_idc")
 	s.ProfileCompatibility = uint32(rapid.IntRange(0, 63).Draw(t, "constraint_set_flags")) << 2
 	s.Level = rapid.SampledFrom(AVCLevels).Draw(t, "level_idc")
 	s.ParameterID = o.ID
@@ -397,7 +406,12 @@ func GenAVCSPS(t *rapid.T, o AVCSPSOpts) nalgen.AVCSPSTree {
 		}
 		tr.OffsetForNonRefPic = drawOff("offset_for_non_ref_pic")
 		tr.OffsetForTopToBottomField = drawOff("offset_for_top_to_bottom_field")
-		n := rapid.SampledFrom([]int{0, 1, 1, 2, 3, 7, 255}).Draw(t, "num_ref_frames_in_pic_order_cnt_cycle")
+		var n int
+		if o.PocCycleAny && AVCChance(t, 1, 3, "num_ref_frames_in_pic_order_cnt_cycle-any") {
+			n = int(AVCDrawInt(t, 0, 255, "num_ref_frames_in_pic_order_cnt_cycle"))
+		} else {
+			n = rapid.SampledFrom([]int{0, 1, 1, 2, 3, 7, 255}).Draw(t, "num_ref_frames_in_pic_order_cnt_cycle")
+		}
 		if o.Light && n > 7 {
 			n = 4
 		}
@@ -720,19 +734,49 @@ func GenAVCPredWeights(t *rapid.T, n uint32, chroma bool, label string) []nalgen
 	return out
 }
 
+// AVCSliceOpts steers the slice header generator; the zero value is the draw sequence of GenAVCSlice.
+type AVCSliceOpts struct {
+	// PBBias: the NAL unit type is a non-IDR slice in 80 % of the draws and slice_type comes from the weighted
+	// table AVCSliceTypesPB, so that P, B and I slices (and with them ref_pic_list_modification, pred_weight_table,
+	// num_ref_idx override, cabac_init_idc) are reached about equally often. Without it an IDR picture (1/3)
+	// forces I/SI and the uniform slice_type draw gives another 40 % I/SI: 58 % of the slices have no inter syntax.
+	PBBias bool
+}
+
+// AVCSliceTypesPB: slice_type of a non-IDR slice under AVCSliceOpts.PBBias (P 5/16, B 5/16, I, SP, SI 2/16 each).
+var AVCSliceTypesPB = []int{0, 5, 0, 5, 0, 1, 6, 1, 6, 1, 2, 7, 3, 8, 4, 9}
+
 // GenAVCSlice draws a slice header that refers to pps (-> sps).
 func GenAVCSlice(t *rapid.T, sps *nalgen.AVCSPSTree, pps *nalgen.AVCPPSTree) nalgen.AVCSliceTree {
+	return GenAVCSliceOpt(t, sps, pps, AVCSliceOpts{})
+}
+
+// GenAVCSliceOpt is GenAVCSlice with options.
+func GenAVCSliceOpt(t *rapid.T, sps *nalgen.AVCSPSTree, pps *nalgen.AVCPPSTree, o AVCSliceOpts) nalgen.AVCSliceTree {
 	var tr nalgen.AVCSliceTree
 	h := &tr.H
 	s := &sps.S
 	p := &pps.P
-	idr := AVCChance(t, 1, 3, "idr")
+	var idr bool
+	if o.PBBias {
+		idr = HEVCPct(t, 20, "idr") // fair coin flips, see HEVCPct
+	} else {
+		idr = AVCChance(t, 1, 3, "idr")
+	}
 	tr.NalUnitType = 1
-	if idr {
+	switch {
+	case idr && o.PBBias:
+		tr.NalUnitType = 5
+		tr.NalRefIdc = uint8(rapid.IntRange(1, 3).Draw(t, "nal_ref_idc"))
+		h.SliceType = avc.SliceType([]int{2, 7, 2, 7, 4, 9}[HEVCUni(t, 6, "slice_type")])
+	case idr:
 		tr.NalUnitType = 5
 		tr.NalRefIdc = uint8(rapid.IntRange(1, 3).Draw(t, "nal_ref_idc"))
 		h.SliceType = avc.SliceType(rapid.SampledFrom([]int{2, 7, 4, 9}).Draw(t, "slice_type"))
-	} else {
+	case o.PBBias:
+		tr.NalRefIdc = uint8(rapid.IntRange(0, 3).Draw(t, "nal_ref_idc"))
+		h.SliceType = avc.SliceType(AVCSliceTypesPB[HEVCUni(t, len(AVCSliceTypesPB), "slice_type")])
+	default:
 		tr.NalRefIdc = uint8(rapid.IntRange(0, 3).Draw(t, "nal_ref_idc"))
 		h.SliceType = avc.SliceType(rapid.IntRange(0, 9).Draw(t, "slice_type"))
 	}
@@ -923,6 +967,11 @@ func GenAVCPPSSet(rt *rapid.T) (sps []nalgen.AVCSPSTree, pps []nalgen.AVCPPSTree
 // GenAVCSliceSet draws 1..3 SPS, 1..4 PPS (ids crossing between the two id spaces) and a slice header that uses
 // pps[usePPS], which refers to sps[useSPS].
 func GenAVCSliceSet(rt *rapid.T) (sps []nalgen.AVCSPSTree, pps []nalgen.AVCPPSTree, slice nalgen.AVCSliceTree, useSPS, usePPS int) {
+	return GenAVCSliceSetOpt(rt, AVCSliceOpts{})
+}
+
+// GenAVCSliceSetOpt is GenAVCSliceSet with options for the slice header (the parameter sets are drawn alike).
+func GenAVCSliceSetOpt(rt *rapid.T, o AVCSliceOpts) (sps []nalgen.AVCSPSTree, pps []nalgen.AVCPPSTree, slice nalgen.AVCSliceTree, useSPS, usePPS int) {
 	nSPS := rapid.IntRange(1, 3).Draw(rt, "nSPS")
 	nPPS := rapid.IntRange(1, 4).Draw(rt, "nPPS")
 	spsIDs := AVCDistinct(rt, nSPS, 31, "seq_parameter_set_id")
@@ -955,19 +1004,36 @@ func GenAVCSliceSet(rt *rapid.T) (sps []nalgen.AVCSPSTree, pps []nalgen.AVCPPSTr
 	for i := 0; i < nPPS; i++ {
 		pps = append(pps, GenAVCPPS(rt, AVCPPSOpts{ID: ppsIDs[i], NoChangeCycleTypes: i == use}, &sps[refs[i]]))
 	}
-	slice = GenAVCSlice(rt, &sps[refs[use]], &pps[use])
+	slice = GenAVCSliceOpt(rt, &sps[refs[use]], &pps[use], o)
 	return sps, pps, slice, refs[use], use
 }
 
 // GenAVCConfSets draws the parameter sets of an AVCDecoderConfigurationRecord: 1..3 SPS (the first one
 // determines the record's profile / level / chroma fields) and 0..3 PPS.
 func GenAVCConfSets(rt *rapid.T) (sps []nalgen.AVCSPSTree, pps []nalgen.AVCPPSTree) {
+	return GenAVCConfSetsOpt(rt, nil)
+}
+
+// AVCConfProfiles: profile_idc of the first SPS of a configuration record in C15's conf check. The profiles for
+// which ISO/IEC 14496-15 5.3.3.1.2 puts chroma_format, bit_depth_luma_minus8, bit_depth_chroma_minus8 and
+// numOfSequenceParameterSetExt behind the parameter sets (100, 110, 122, 144 in every edition; 244 and the other
+// profiles with chroma_format_idc in the SPS in the newer ones) get extra weight. profile_idc 144 (the High 4:4:4
+// profile removed in 2006) is not in the list of H.264 7.3.2.1.1: its SPS has no chroma_format_idc (4:2:0, 8 bit inferred).
+var AVCConfProfiles = []uint32{66, 77, 88, 100, 110, 122, 244, 144, 100, 110, 122, 244, 144, 44, 83, 86, 118, 128, 138, 139, 134, 135}
+
+// GenAVCConfSetsOpt is GenAVCConfSets with the profile_idc values of the FIRST SPS drawn from firstProfiles
+// (nil: AVCProfiles, the draw sequence of GenAVCConfSets).
+func GenAVCConfSetsOpt(rt *rapid.T, firstProfiles []uint32) (sps []nalgen.AVCSPSTree, pps []nalgen.AVCPPSTree) {
 	nSPS := rapid.SampledFrom([]int{1, 1, 1, 2, 3}).Draw(rt, "nSPS")
 	nPPS := rapid.SampledFrom([]int{1, 1, 2, 3, 0}).Draw(rt, "nPPS")
 	spsIDs := AVCDistinct(rt, nSPS, 31, "seq_parameter_set_id")
 	ppsIDs := AVCDistinct(rt, nPPS, 255, "pic_parameter_set_id")
 	for i := 0; i < nSPS; i++ {
-		sps = append(sps, GenAVCSPS(rt, AVCSPSOpts{ID: spsIDs[i], Light: i > 0, Conf: i == 0}))
+		o := AVCSPSOpts{ID: spsIDs[i], Light: i > 0, Conf: i == 0}
+		if i == 0 {
+			o.Profiles = firstProfiles
+		}
+		sps = append(sps, GenAVCSPS(rt, o))
 	}
 	for i := 0; i < nPPS; i++ {
 		ref := rapid.IntRange(0, nSPS-1).Draw(rt, "pps-refers-to")
